@@ -267,8 +267,16 @@ func (m *lm) c07FollowUps(n int) {
 				m.pendingCreated = append(m.pendingCreated, lmCreated{A, r.Vertex, m.snaps[A]})
 				d := m.w.Apply(sim.Op{K: "deliver", N: B, V: m.w.OrderIndex(r.Vertex.Hash)})
 				m.label("c07:follow-up-twin-compared")
+				if weightRule(d.Err) {
+					m.twinsDiverged = true
+					m.label("c07:twin-weight-rule-divergence")
+				}
 				if d.Err != nil && !m.twinsDiverged {
-					m.addViol("C07", "twin-rejects-what-truncated-node-created", "vertex %s created by the truncated node on tips it validated against its checkpoint is rejected by the twin that validates against the full history: %v", m.describe(r.Vertex), d.Err)
+					sig := "twin-rejects-what-truncated-node-created"
+					if m.checkpointOverdrawn() {
+						sig = "checkpoint-clips-overdrawn-wallet"
+					}
+					m.addViol("C07", sig, "vertex %s created by the truncated node on tips it validated against its checkpoint is rejected by the twin that validates against the full history: %v", m.describe(r.Vertex), d.Err)
 				}
 				desc += " deliver(B)=" + errClass(d.Err)
 			}
@@ -289,9 +297,19 @@ func (m *lm) c07FollowUps(n int) {
 			db := m.w.Apply(sim.Op{K: "deliver", N: B, V: idx})
 			m.noteResult("C07", da, "AddLeaf")
 			m.label("c07:follow-up-twin-compared")
+			if weightRule(da.Err) || weightRule(db.Err) {
+				// the weight/throughput counters are node-local (they depend on which node sealed and which validated),
+				// so a weight-rule decision says nothing about truncation
+				m.twinsDiverged = true
+				m.label("c07:twin-weight-rule-divergence")
+			}
 			if (da.Err == nil) != (db.Err == nil) && !m.twinsDiverged {
 				if _, bHas := m.snaps[B].Live[l]; bHas {
-					m.addViol("C07", "twin-outcome-differs", "gossip of %s: truncated node says %v, twin (full history) says %v", m.describe(res.Vertex), da.Err, db.Err)
+					sig := "twin-outcome-differs"
+					if m.checkpointOverdrawn() {
+						sig = "checkpoint-clips-overdrawn-wallet"
+					}
+					m.addViol("C07", sig, "gossip of %s: truncated node says %v, twin (full history) says %v", m.describe(res.Vertex), da.Err, db.Err)
 				}
 			}
 			m.observe(fmt.Sprintf("follow-up craft on tips -> A=%s B=%s", errClass(da.Err), errClass(db.Err)))
@@ -301,6 +319,27 @@ func (m *lm) c07FollowUps(n int) {
 			m.twinsDiverged = true
 		}
 	}
+}
+
+// checkpointOverdrawn: some wallet other than the genesis issuer has spent more than it received over the
+// checkpointed vertices alone - only possible through the C02 merge double-spend (or the trusted exemption); the
+// truncated node then validates against a clipped checkpoint and legitimately-by-its-own-rules disagrees with the twin.
+func (m *lm) checkpointOverdrawn() bool {
+	st := m.snaps[0].StoredSet()
+	for _, k := range m.w.Wallets {
+		if k.Addr == m.w.Genesis.Transaction.IssuerAddress {
+			continue
+		}
+		in, out := m.w.Arch.Flow(st, k.Addr)
+		if in.Cmp(out) < 0 {
+			return true
+		}
+	}
+	return false
+}
+
+func weightRule(err error) bool {
+	return err != nil && strings.Contains(err.Error(), "minimal weight")
 }
 
 func sameKeys(a, b map[ref.Hash]struct{}) bool {
